@@ -89,4 +89,20 @@ func genLex(tier string, emit func(op string, fields ...string)) {
 		emit("SCAN", hexs(s))
 		emit("SPLIT", hexs(s))
 	}
+	// numeric accessors of literals (IsFloat / IsInteger / Uint64) on number spellings
+	digits := []string{"0", "1", "7", "9", "00", "12", "007"}
+	for _, ip := range digits {
+		for _, fr := range []string{"", ".", ".0", ".5", ".25"} {
+			for _, ex := range []string{"", "e0", "e3", "E3", "e+2", "E+2", "e-1", "E-1"} {
+				emit("NUM", hexs(ip+fr+ex))
+			}
+		}
+	}
+	for _, t := range []string{".5", ".5e1", ".5E1", "0x0", "0x1F", "0XaB", "0xe", "0xE", "0x1e3", "0x1E3", "0xffffffffffffffff", "18446744073709551615",
+		"18446744073709551616", "99999999999999999999", "1e400", "4294967296", "1E0", "0E0", "0e0"} {
+		emit("NUM", hexs(t))
+	}
+	for i := 0; i < nRandom/20; i++ {
+		emit("NUM", hexs(pick(numberLits)))
+	}
 }
